@@ -35,12 +35,15 @@ Proof. exact hist_isolation. Qed.
    returned") is not formalised here. *)
 Definition C01_statement : Prop := C01_safety_statement.
 
-(* Admitting GetAndDelete in handler scripts the statement is false, with the
-   cache switched off and no cache loss at all: the deletion is never saved
-   (defect D6), the next request serves the deleted value again. *)
-Theorem C01_with_getdel_refuted : ~ C01_safety_with_getdel.
-Proof. exact C01_getdel_refuted. Qed.
+(* Handler scripts may use GetAndDelete (it writes through since the repair of
+   defect D6): with the cache switched off the deletion reaches the store and
+   the next request sees the key gone, as the ghost specification says. *)
+Theorem C01_getdel_example :
+  let hs := [rq 1 true [SSet 1 2]; rq 1 false [SGetDel 1; SGetDel 1]; rq 1 false [SGet 1]] in
+  forallb c01_hop hs = true /\ g_run [] hs (run cfg0 hs) = true /\
+  map ob_script (run cfg0 hs) = [[SOk]; [SVal (Some 2%N); SVal None]; [SVal None]].
+Proof. exact C01_getdel_test. Qed.
 
 Print Assumptions C01_isolation_step.
 Print Assumptions C01_isolation_hist_partial.
-Print Assumptions C01_with_getdel_refuted.
+Print Assumptions C01_getdel_example.
